@@ -919,7 +919,6 @@ package spdxexp
 //@   ensures[C07,scoped] keptAreOld: forall j {nodes[j]} :: 0 <= j && j < len(nodes) ==> otc(old(elems(nodes)), 0, len(nodes), fieldHeap("node", "tree"), nodes[j].tree)
 //@   loop 0:
 //@     invariant[C03] 1 <= prev && prev <= curr && curr <= len(nodes) && allLeaves(nodes)
-//@     decreases len(nodes) - curr
 //@     invariant[C07,C01] (occursR(nodes, 0, prev, s) || occursR(nodes, curr, len(nodes), s)) <==> old(occursR(nodes, 0, len(nodes), s))
 //@     invariant[C07,C01] reconT(nodes[prev - 1].tree) == reconT(nodes[curr - 1].tree)
 //@     invariant[C07,C01] occursR(nodes, 0, len(nodes), s) ==> old(occursR(nodes, 0, len(nodes), s))
